@@ -160,10 +160,10 @@ inductive DecisionCase (s : Source) (sp : SP) (c : Cache) : Decision → Prop
       DecisionCase s sp c ⟨br, sendPSync s sp.runId sp.offset, true,
         if (sendPSync s sp.runId sp.offset).full then loc0 else ⟨(sendPSync s sp.runId sp.offset).runId, sp.offset⟩, sp.offset⟩
   | rdb4full (left size : Int) : c.rdb = some (left, size) → (c.runId = s.id1 ∨ c.runId = s.id2) →
-      (sendPSync s c.runId c.latest).full = true →
+      (sendPSync s c.runId c.latest).full = true → sp.isInitial = true →
       DecisionCase s sp c ⟨4, sendPSync s c.runId c.latest, false, ⟨c.runId, c.latest⟩, sp.offset⟩
   | rdb4 (left size : Int) : c.rdb = some (left, size) → (c.runId = s.id1 ∨ c.runId = s.id2) →
-      (sendPSync s c.runId c.latest).full = false →
+      (sendPSync s c.runId c.latest).full = false → sp.isInitial = true →
       DecisionCase s sp c ⟨4, { sendPSync s c.runId c.latest with rdbSize := size }, false,
         ⟨c.runId, c.range.2⟩, left - size⟩
   | fresh (br : Nat) (loc0 : SP) :
@@ -210,9 +210,9 @@ theorem decision_cases {s : Source} (hs : SourceWF s) (sp : SP) (c : Cache) :
             have hg : c.getOffsetRange c.runId = c.range := by simp [Cache.getOffsetRange]
             by_cases hf : (sendPSync s c.runId c.latest).full = true
             · rw [if_pos hf]
-              exact .rdb4full left size hr hcid hf
+              exact .rdb4full left size hr hcid hf hini
             · rw [if_neg hf, hg]
-              exact .rdb4 left size hr hcid (by simpa using hf)
+              exact .rdb4 left size hr hcid (by simpa using hf) hini
           · rw [if_neg hok]
             exact .fresh 5 _
       · simp only [hsp, hloc', hini, Bool.and_false, Bool.false_eq_true, if_false]
